@@ -451,9 +451,13 @@ class Collada(object):
                                     self.nodes.append(N)
                                     succeeded = True
                         tried_loading = next_tried
-                    if len(tried_loading) > 0:
-                        for node, ex in tried_loading:
+                    for node, ex in tried_loading:
+                        # the node instantiates a node that never loaded
+                        # (undefined, or part of a cycle of instance_nodes)
+                        try:
                             raise DaeBrokenRefError(ex.msg)
+                        except DaeBrokenRefError as brokenref:
+                            self.handleError(brokenref)
 
     def _loadScenes(self):
         """Load scene library."""
